@@ -356,3 +356,38 @@ pub fn family_j() -> Vec<String> {
     out.dedup();
     out
 }
+
+/// every formula of connective depth <= `depth` over `atoms` with negation (if `neg`) and the
+/// binary connectives `ops` (fully parenthesised)
+pub fn all_formulas(atoms: &[&str], neg: bool, ops: &[&str], depth: usize) -> Vec<String> {
+    let mut level: Vec<String> = atoms.iter().map(|s| s.to_string()).collect();
+    for _ in 0..depth {
+        let mut next = level.clone();
+        if neg {
+            for a in &level {
+                next.push(format!("not ({a})"));
+            }
+        }
+        for op in ops {
+            for a in &level {
+                for b in &level {
+                    next.push(format!("({a}) {op} ({b})"));
+                }
+            }
+        }
+        next.sort();
+        next.dedup();
+        level = next;
+    }
+    level
+}
+
+/// family K (thorough tiers): complete connective depth 2 over five atoms and all six connectives,
+/// complete depth 3 over {p, q(X)} and {not, ->, <-}
+pub fn family_k() -> Vec<String> {
+    let mut v = all_formulas(&["p", "q(X)", "q(a)", "X = a", "#false"], true, &BIN, 2);
+    v.extend(all_formulas(&["p", "q(X)"], true, &["->", "<-"], 3));
+    v.sort();
+    v.dedup();
+    v
+}
